@@ -383,12 +383,18 @@ def main(run):
     run.check_determinism(run_case, cs[0])
     run.explore('power', cs, run_case, budget_s=300)
     run.explore('varpow', varpow_cases(run.tier), run_varpow, budget_s=600)
+    # the summary table of dassh.out through which a user reads this property (vf/props/reports.py)
+    from . import reports
+    run.explore('report-power', reports.cases_power(run.tier), reports.run_power, budget_s=300)
     if not run.extra.get('bundle_bound_inside_power_cell'):
         run.violations.append(dict(violation('vacuous-alphabet', {}, 'no case with a bundle bound inside a power cell'),
                                    part='power'))
 
 
 def replay(body):
+    if str((body.get('scenario') or {}).get('probe', '')).startswith('report-'):
+        from . import reports
+        return reports.replay(body)
     from ..run import guarded
     c = {k: v for k, v in body['scenario'].items() if k not in ('asm',)}
     r = guarded(run_varpow if body.get('part') == 'varpow' else run_case, c, 900)
